@@ -35,10 +35,13 @@ SIMPLE = {
     ("Result", "ok"): {"Ok": "wrap:Some", "Err": "unit:None"},
     ("Result", "err"): {"Err": "wrap:Some", "Ok": "unit:None"},
     ("Option", "ok_or"): {"Some": "wrap:Ok", "None": "arg:Err"},
+    ("Option", "unwrap_or"): {"Some": "payload:", "None": "argv:"},
+    ("Result", "unwrap_or"): {"Ok": "payload:", "Err": "argv:"},
 }
 VI = {"Ok": 0, "Err": 1, "None": 0, "Some": 1}
 ADT = {"Ok": "std::result::Result", "Err": "std::result::Result", "None": "std::option::Option", "Some": "std::option::Option"}
 MAX_CLOSURE_BLOCKS = 60
+_ADTS = {}
 
 
 def _kind_of(callee):
@@ -49,6 +52,10 @@ def _kind_of(callee):
         return "Option"
     if p == TRANSPOSE:
         return "Option"
+    if p in ("core::bool::<impl bool>::then", "core::bool::<impl bool>::then_some"):
+        return "bool"
+    if callee.get("decl") == "std::iter::Iterator::for_each":
+        return "Iterator"
     return None
 
 
@@ -69,7 +76,8 @@ def counts(body, path=None):
             out["closure-call"] = out.get("closure-call", 0) + 1
         if t["k"] == "call":
             k = _kind_of(t["callee"])
-            if k and ((k, t["callee"]["name"]) in TABLE or (k, t["callee"]["name"]) in SIMPLE or t["callee"]["path"] == TRANSPOSE):
+            if k and ((k, t["callee"]["name"]) in TABLE or (k, t["callee"]["name"]) in SIMPLE or t["callee"]["path"] == TRANSPOSE or k in ("bool", "Iterator")
+                      or (k, t["callee"]["name"]) in (("Option", "filter"), ("Option", "map_or"), ("Result", "map_or"))):
                 key = k + "::" + t["callee"]["name"]
                 out[key] = out.get(key, 0) + 1
     return out
@@ -167,6 +175,12 @@ def desugar_simple(body, bb, kind, spec):
             rv = _agg(wv, [{"move": _payload(r, v)}])
         elif how == "unit":
             rv = _agg(wv, [])
+        elif how == "payload":
+            rv = {"use": {"move": _payload(r, v)}}
+        elif how == "argv":
+            if len(t["args"]) < 2:
+                return False
+            rv = {"use": copy.deepcopy(t["args"][1])}
         else:
             if len(t["args"]) < 2:
                 return False
@@ -182,6 +196,162 @@ def desugar_simple(body, bb, kind, spec):
     return True
 
 
+def _closure_arg(bodies, body, op, argc):
+    c = _bare(op)
+    if c is None:
+        return None, None, None
+    d = inline._single_def(body, c)
+    if d is None or d[0] != "assign" or d[2]["rv"].get("agg") != "closure":
+        return None, None, None
+    cp = d[2]["rv"]["def"]
+    clo = bodies.get(cp)
+    if clo is None or clo["kind"] != "closure" or len(clo["blocks"]) > MAX_CLOSURE_BLOCKS or clo["argc"] != argc:
+        return None, None, None
+    return c, cp, clo
+
+
+def _call_closure(bodies, body, stmts, c, cp, clo, extra_args, dest, target, unwind, span, what):
+    """append a block that calls closure `cp` (value in local c) with extra_args, result into dest, then goes to target; the
+    closure body is inlined.  Returns the block index."""
+    args = []
+    env_ty = clo["locals"][1]["ty"]
+    if env_ty.startswith("&"):
+        el = _new_local(body, env_ty)
+        stmts.append({"k": "assign", "place": {"l": el, "p": []}, "rv": {"ref": {"l": c, "p": []}, "mut": env_ty.startswith("&mut"), "fake": False}, "span": span})
+        args.append({"move": {"l": el, "p": []}})
+    else:
+        args.append({"move": {"l": c, "p": []}})
+    args += extra_args
+    call = {"k": "call", "callee": {"decl": cp, "name": cp.rsplit("::", 1)[-1], "targs": [], "path": cp, "kind": "item"}, "args": args,
+            "arg_tys": [body["locals"][(a.get("move") or a.get("copy"))["l"]]["ty"] for a in args], "dest": dest, "target": target, "span": span, "desugared": what}
+    if unwind is not None:
+        call["unwind"] = unwind
+    cb = _new_block(body, stmts, call)
+    clo_alias = {q: q for q in bodies if q.startswith(cp + "::{") and q != cp}
+    inline.inline_call(body, cb, copy.deepcopy(clo), cp, clo_alias)
+    return cb
+
+
+def desugar_bool_then(bodies, path, body, bb):
+    """b.then(f) == if b { Some(f()) } else { None };  b.then_some(v) == if b { Some(v) } else { None }"""
+    t = body["blocks"][bb]["term"]
+    if len(t["args"]) != 2 or t.get("target") is None or t["dest"]["p"]:
+        return False
+    span, target, unwind, dest = t.get("span"), t["target"], t.get("unwind"), t["dest"]
+    go = {"k": "goto", "target": target, "span": span}
+    nb = _new_block(body, [{"k": "assign", "place": copy.deepcopy(dest), "rv": _agg("None", []), "span": span, "desugared": "then"}], dict(go))
+    if t["callee"]["name"] == "then_some":
+        yb = _new_block(body, [{"k": "assign", "place": copy.deepcopy(dest), "rv": _agg("Some", [copy.deepcopy(t["args"][1])]), "span": span, "desugared": "then"}], dict(go))
+    else:
+        c, cp, clo = _closure_arg(bodies, body, t["args"][1], 1)
+        if clo is None:
+            del body["blocks"][nb:]
+            return False
+        yl = _new_local(body, clo["locals"][0]["ty"])
+        jb = _new_block(body, [{"k": "assign", "place": copy.deepcopy(dest), "rv": _agg("Some", [{"move": {"l": yl, "p": []}}]), "span": span, "desugared": "then"}], dict(go))
+        yb = _call_closure(bodies, body, [], c, cp, clo, [], {"l": yl, "p": []}, jb, unwind, span, "then")
+    body["blocks"][bb]["term"] = {"k": "switch", "on": copy.deepcopy(t["args"][0]), "on_ty": "bool", "targets": [[0, nb]], "otherwise": yb, "span": span,
+                                  "desugared": t["callee"]["path"]}
+    return True
+
+
+def desugar_for_each(bodies, path, body, bb):
+    """it.for_each(f) == for x in it { f(x) }   (the loop rustc builds: into_iter, then next() until None)"""
+    t = body["blocks"][bb]["term"]
+    it = _bare(t["args"][0]) if len(t["args"]) == 2 else None
+    if it is None or t.get("target") is None or t["dest"]["p"]:
+        return False
+    c, cp, clo = _closure_arg(bodies, body, t["args"][1], 2)
+    if clo is None:
+        return False
+    span, target, unwind, dest = t.get("span"), t["target"], t.get("unwind"), t["dest"]
+    it_ty = body["locals"][it]["ty"]
+    item_ty = clo["locals"][2]["ty"]
+    self_ty = t["callee"].get("self_ty") or it_ty
+    base = t["callee"]["path"].rsplit("::", 1)[0]
+    il = _new_local(body, it_ty)
+    ol = _new_local(body, "std::option::Option<%s>" % item_ty)
+    rl = _new_local(body, "&mut " + it_ty)
+    dl = _new_local(body, "isize")
+    xl = _new_local(body, item_ty)
+    ul = _new_local(body, "()")
+    eb = _new_block(body, [{"k": "assign", "place": copy.deepcopy(dest), "rv": {"use": {"const": {"ty": "()"}}}, "span": span, "desugared": "for_each"}],
+                    {"k": "goto", "target": target, "span": span})
+    # loop head: next(&mut it)
+    nxt = {"k": "call", "callee": {"decl": "std::iter::Iterator::next", "name": "next", "targs": [self_ty], "trait": "std::iter::Iterator", "self_ty": self_ty,
+                                   "path": base + "::next", "kind": "item"},
+           "args": [{"move": {"l": rl, "p": []}}], "arg_tys": ["&mut " + it_ty], "dest": {"l": ol, "p": []}, "target": None, "span": span, "desugared": "for_each"}
+    if unwind is not None:
+        nxt["unwind"] = unwind
+    hb = _new_block(body, [{"k": "assign", "place": {"l": rl, "p": []}, "rv": {"ref": {"l": il, "p": []}, "mut": True, "fake": False}, "span": span}], nxt)
+    # body: f(x), back to the head
+    stmts = [{"k": "assign", "place": {"l": xl, "p": []}, "rv": {"use": {"move": _payload(ol, "Some")}}, "span": span, "desugared": "payload"}]
+    cb = _call_closure(bodies, body, stmts, c, cp, clo, [{"move": {"l": xl, "p": []}}], {"l": ul, "p": []}, hb, unwind, span, "for_each")
+    sb = _new_block(body, [{"k": "assign", "place": {"l": dl, "p": []}, "rv": {"discr": {"l": ol, "p": []}, "ty": "std::option::Option<%s>" % item_ty,
+                                                                                 "variants": {"0": "None", "1": "Some"}}, "span": span, "desugared": "for_each"}],
+                    {"k": "switch", "on": {"move": {"l": dl, "p": []}}, "on_ty": "isize", "targets": [[1, cb]], "otherwise": eb, "span": span, "desugared": "for_each"})
+    body["blocks"][hb]["term"]["target"] = sb
+    # entry: it' = into_iter(it)
+    body["blocks"][bb]["term"] = {"k": "call", "callee": {"decl": "std::iter::IntoIterator::into_iter", "name": "into_iter", "targs": [self_ty], "trait": "std::iter::IntoIterator",
+                                                          "self_ty": self_ty, "path": "<I as std::iter::IntoIterator>::into_iter", "kind": "item"},
+                                  "args": [copy.deepcopy(t["args"][0])], "arg_tys": [it_ty], "dest": {"l": il, "p": []}, "target": hb, "span": span, "desugared": "for_each"}
+    if unwind is not None:
+        body["blocks"][bb]["term"]["unwind"] = unwind
+    return True
+
+
+def desugar_map_or(bodies, path, body, bb, kind):
+    """o.map_or(d, f) == match o { Some(x) / Ok(x) => f(x), _ => d }"""
+    t = body["blocks"][bb]["term"]
+    r = _bare(t["args"][0]) if len(t["args"]) == 3 else None
+    if r is None or t.get("target") is None or t["dest"]["p"]:
+        return False
+    c, cp, clo = _closure_arg(bodies, body, t["args"][2], 2)
+    if clo is None:
+        return False
+    span, target, unwind, dest = t.get("span"), t["target"], t.get("unwind"), t["dest"]
+    hit = "Some" if kind == "Option" else "Ok"
+    variants = {"0": "None", "1": "Some"} if kind == "Option" else {"0": "Ok", "1": "Err"}
+    nb = _new_block(body, [{"k": "assign", "place": copy.deepcopy(dest), "rv": {"use": copy.deepcopy(t["args"][1])}, "span": span, "desugared": "map_or"}],
+                    {"k": "goto", "target": target, "span": span})
+    xl = _new_local(body, clo["locals"][2]["ty"])
+    stmts = [{"k": "assign", "place": {"l": xl, "p": []}, "rv": {"use": {"move": _payload(r, hit)}}, "span": span, "desugared": "payload"}]
+    cb = _call_closure(bodies, body, stmts, c, cp, clo, [{"move": {"l": xl, "p": []}}], copy.deepcopy(dest), target, unwind, span, "map_or")
+    dl = _new_local(body, "isize")
+    body["blocks"][bb]["stmts"].append({"k": "assign", "place": {"l": dl, "p": []}, "rv": {"discr": {"l": r, "p": []}, "ty": body["locals"][r]["ty"], "variants": variants},
+                                        "span": span, "desugared": "map_or"})
+    body["blocks"][bb]["term"] = {"k": "switch", "on": {"move": {"l": dl, "p": []}}, "on_ty": "isize", "targets": [[VI[hit], cb]], "otherwise": nb, "span": span,
+                                  "desugared": t["callee"]["path"]}
+    return True
+
+
+def desugar_filter(bodies, path, body, bb):
+    """o.filter(p) == match o { Some(x) if p(&x) => Some(x), _ => None }"""
+    t = body["blocks"][bb]["term"]
+    r = _bare(t["args"][0]) if len(t["args"]) == 2 else None
+    if r is None or t.get("target") is None or t["dest"]["p"]:
+        return False
+    c, cp, clo = _closure_arg(bodies, body, t["args"][1], 2)
+    if clo is None:
+        return False
+    span, target, unwind, dest = t.get("span"), t["target"], t.get("unwind"), t["dest"]
+    res_ty = body["locals"][r]["ty"]
+    go = {"k": "goto", "target": target, "span": span}
+    nb = _new_block(body, [{"k": "assign", "place": copy.deepcopy(dest), "rv": _agg("None", []), "span": span, "desugared": "filter"}], dict(go))
+    kb = _new_block(body, [{"k": "assign", "place": copy.deepcopy(dest), "rv": _agg("Some", [{"move": _payload(r, "Some")}]), "span": span, "desugared": "filter"}], dict(go))
+    bl = _new_local(body, "bool")
+    tb = _new_block(body, [], {"k": "switch", "on": {"move": {"l": bl, "p": []}}, "on_ty": "bool", "targets": [[0, nb]], "otherwise": kb, "span": span, "desugared": "filter"})
+    xr = _new_local(body, clo["locals"][2]["ty"])
+    stmts = [{"k": "assign", "place": {"l": xr, "p": []}, "rv": {"ref": _payload(r, "Some"), "mut": False, "fake": False}, "span": span, "desugared": "payload"}]
+    cb = _call_closure(bodies, body, stmts, c, cp, clo, [{"move": {"l": xr, "p": []}}], {"l": bl, "p": []}, tb, unwind, span, "filter")
+    dl = _new_local(body, "isize")
+    body["blocks"][bb]["stmts"].append({"k": "assign", "place": {"l": dl, "p": []}, "rv": {"discr": {"l": r, "p": []}, "ty": res_ty, "variants": {"0": "None", "1": "Some"}},
+                                        "span": span, "desugared": "filter"})
+    body["blocks"][bb]["term"] = {"k": "switch", "on": {"move": {"l": dl, "p": []}}, "on_ty": "isize", "targets": [[1, cb]], "otherwise": nb, "span": span,
+                                  "desugared": t["callee"]["path"]}
+    return True
+
+
 def desugar_call(bodies, path, body, bb):
     """Rewrite the combinator call ending block bb.  Returns True when rewritten."""
     t = body["blocks"][bb]["term"]
@@ -190,6 +360,14 @@ def desugar_call(bodies, path, body, bb):
     kind = _kind_of(t["callee"])
     if (kind, t["callee"]["name"]) in SIMPLE:
         return desugar_simple(body, bb, kind, SIMPLE[(kind, t["callee"]["name"])])
+    if kind == "bool":
+        return desugar_bool_then(bodies, path, body, bb)
+    if kind == "Iterator":
+        return desugar_for_each(bodies, path, body, bb)
+    if (kind, t["callee"]["name"]) == ("Option", "filter"):
+        return desugar_filter(bodies, path, body, bb)
+    if t["callee"]["name"] == "map_or" and kind in ("Option", "Result"):
+        return desugar_map_or(bodies, path, body, bb, kind)
     spec = TABLE.get((kind, t["callee"]["name"]))
     if spec is None or len(t["args"]) != 2 or t.get("target") is None or t["dest"]["p"]:
         return False
@@ -255,6 +433,17 @@ def desugar_call(bodies, path, body, bb):
     else:
         cdest, ctarget = copy.deepcopy(dest), target
     cp = clo_path or fn_path
+    if fn_path is not None and "::" in fn_path:
+        # `.map(Enum::Variant)`: a tuple-variant constructor used as a function builds that variant
+        ep, vn = fn_path.rsplit("::", 1)
+        adt = _ADTS.get(ep)
+        if adt is not None and adt.get("kind") == "enum" and any(v.get("name") == vn for v in adt.get("variants", [])):
+            vi = [k for k, v in enumerate(adt["variants"]) if v.get("name") == vn][0]
+            rvv = {"agg": "adt", "adt": ep, "variant": vn, "vi": vi, "fields": [str(k) for k in range(len(args))], "ops": args}
+            cb = _new_block(body, stmts + [{"k": "assign", "place": cdest, "rv": rvv, "span": span, "desugared": "ctor"}], {"k": "goto", "target": ctarget, "span": span})
+            body["blocks"][bb]["term"] = {"k": "switch", "on": {"move": {"l": dl, "p": []}}, "on_ty": "isize", "targets": [[VI[run_v], cb]], "otherwise": pb, "span": span,
+                                          "desugared": t["callee"]["path"]}
+            return True
     call = {"k": "call", "callee": {"decl": cp, "name": cp.rsplit("::", 1)[-1], "targs": [], "path": cp, "kind": "item"}, "args": args,
             "arg_tys": [body["locals"][(a.get("move") or a.get("copy"))["l"]]["ty"] for a in args], "dest": cdest, "target": ctarget, "span": span,
             "desugared": t["callee"]["name"]}
@@ -306,11 +495,108 @@ def inline_closure_call(bodies, path, body, bb):
     return True
 
 
+def _closure_of(body, local, depth=0):
+    """the closure definition path a local (possibly a reference to / a move of a closure value) stands for, and the local
+    that holds the closure value itself"""
+    if depth > 8:
+        return None, None
+    d = inline._single_def(body, local)
+    if d is None or d[0] != "assign":
+        return None, None
+    rv = d[2]["rv"]
+    if rv.get("agg") == "closure":
+        return rv["def"], local
+    q = None
+    if "use" in rv:
+        q = rv["use"].get("move") or rv["use"].get("copy")
+    elif "ref" in rv:
+        q = rv["ref"]
+    if q is None or [e for e in q["p"] if e != "deref"]:
+        return None, None
+    return _closure_of(body, q["l"], depth + 1)
+
+
+def resolve_closure_calls(raw, paths):
+    """After a helper that takes `impl FnMut(..)` is inlined, its call of the parameter is a call through the type parameter.
+    Where the called value is, in the caller, a closure built there, the call is that closure's body: resolve it and inline it.
+    Returns [(body path, closure path)]."""
+    bodies = raw["bodies"]
+    rep = []
+    for p in paths:
+        body = bodies.get(p)
+        if body is None:
+            continue
+        for _round in range(3):
+            did = False
+            for bb in range(len(body["blocks"])):
+                t = body["blocks"][bb]["term"]
+                if t["k"] != "call" or t["callee"].get("decl") not in FN_CALLS or t["callee"].get("kind") != "unresolved" or len(t["args"]) != 2:
+                    continue
+                a0 = _bare(t["args"][0])
+                if a0 is None:
+                    continue
+                cp, holder = _closure_of(body, a0)
+                if cp is None or cp not in bodies:
+                    continue
+                c = dict(t["callee"])
+                c.update({"path": cp, "kind": "item", "resolved_closure": True})
+                t["callee"] = c
+                # FnOnce::call_once passes the closure by value, the others by reference; the closure body says which it wants
+                env_ty = bodies[cp]["locals"][1]["ty"]
+                arg_ty = body["locals"][a0]["ty"]
+                if env_ty.startswith("&") and not arg_ty.startswith("&"):
+                    el = _new_local(body, env_ty)
+                    body["blocks"][bb]["stmts"].append({"k": "assign", "place": {"l": el, "p": []}, "rv": {"ref": {"l": a0, "p": []}, "mut": env_ty.startswith("&mut"), "fake": False},
+                                                        "span": t.get("span")})
+                    t["args"][0] = {"move": {"l": el, "p": []}}
+                if inline_closure_call(bodies, p, body, bb):
+                    rep.append((p, cp))
+                    did = True
+            if not did:
+                break
+    return rep
+
+
+def drop_orphan_closures(raw, closure_paths):
+    """closure bodies whose every call was inlined and whose value no remaining call receives are represented inside their
+    callers now: remove them so that crate-wide rules judge the code once, where it runs"""
+    bodies = raw["bodies"]
+    removed = []
+    for cp in sorted(set(closure_paths)):
+        if cp not in bodies:
+            continue
+        parent = cp.rsplit("::{closure#", 1)[0]
+        still = False
+        for p, body in bodies.items():
+            if p == cp or p.startswith(cp + "::"):
+                continue
+            for blk in body["blocks"]:
+                t = blk["term"]
+                if t["k"] != "call":
+                    continue
+                if t["callee"]["path"] == cp:
+                    still = True
+                if p == parent or p.startswith(parent + "::"):
+                    for a in t["args"]:
+                        l = _bare(a)
+                        if l is not None and _closure_of(body, l)[0] == cp:
+                            still = True
+            if still:
+                break
+        if not still:
+            for q in [q for q in bodies if q == cp or q.startswith(cp + "::{")]:
+                del bodies[q]
+                removed.append(q)
+    return removed
+
+
 def apply(raw, changed, ref_counts):
     """Desugar, in the bodies listed in `changed`, the combinator calls whose name the reference version of that body did not
     call.  Returns [(body path, combinator, closure/function)]"""
     rep = []
     bodies = raw["bodies"]
+    _ADTS.clear()
+    _ADTS.update(raw.get("adts") or {})
     for path in sorted(changed):
         body = bodies.get(path)
         if body is None or len(body["blocks"]) > 3000:
@@ -334,7 +620,8 @@ def apply(raw, changed, ref_counts):
                         did = True
                     continue
                 k = _kind_of(t["callee"])
-                if not k or ((k, t["callee"]["name"]) not in TABLE and (k, t["callee"]["name"]) not in SIMPLE and t["callee"]["path"] != TRANSPOSE):
+                if not k or ((k, t["callee"]["name"]) not in TABLE and (k, t["callee"]["name"]) not in SIMPLE and t["callee"]["path"] != TRANSPOSE
+                             and k not in ("bool", "Iterator") and (k, t["callee"]["name"]) not in (("Option", "filter"), ("Option", "map_or"), ("Result", "map_or"))):
                     continue
                 key = k + "::" + t["callee"]["name"]
                 if ref.get(key, 0) > 0:
